@@ -35,7 +35,8 @@ def cases():
         'h_c': st.sampled_from(G), 'batch': st.sampled_from([None, 2]), 'k_c': st.sampled_from([0, 1]),
         'cyc': st.booleans(), 'iv': st.sampled_from([0.5, 1.25]), 'cap': st.sampled_from([2, 'inf']),
         'n': st.sampled_from([0, 1]), 'default_source': st.sampled_from([False, False, True]),
-        'off': st.sampled_from([0, 0, 1, 2.5]), 'toucher': st.booleans()})
+        'off': st.sampled_from([0, 0, 1, 2.5]), 'toucher': st.booleans(),
+        'subclasses': st.sampled_from([False, False, True])})
     return st.fixed_dictionaries({
         'attach': st.sampled_from([None, None] + lifecycle.ATTACH_KINDS),
         'kit': kit, 'when': st.sampled_from([0.5, 1, 3, 4.25]), 'hz': st.sampled_from([6, 12, 20]),
